@@ -180,6 +180,28 @@ def sweep_cases(tier, seed):
                             yield {"kind": "pooled", "cfg": cfg, "calls": [{"op": OPS[0]}, {"op": r, "advance": gap}, {"op": OPS[2]}, {"op": r}, {"op": r}, {"op": OPS[0], "advance": gap}, {"op": OPS[4]}, {"op": OPS[3]}]}
 
 
+def soak_cases(tier, seed):
+    """a pool that has been in use for a long time: a thousand and more calls on one pooled client, every few of them failing
+    at the socket, idle gaps in between - after each of them the same rules hold as after the first"""
+    n = 1200 if tier == "quick" else 12000
+    faults = [{"kind": "recv", "nth": 0, "what": "reset"}, {"kind": "sendall", "nth": 0, "what": "pipe", "delivered": "none"}, {"kind": "recv", "nth": 0, "what": "timeout"},
+              {"reply": 0, "tamper": "garbage"}, {"kind": "connect", "nth": 0, "what": "refused"}, {"reply": 0, "tamper": "server_error"}]
+    for mi, mx in enumerate((1, 2, None)):
+        for idle in (0, 5):
+            for ie in (False, True):
+                x = (seed * 6151 + mi * 31 + idle * 7 + ie + 1) & 0x7FFFFFFF
+                calls = []
+                for i in range(n):
+                    x = (x * 1103515245 + 12345) & 0x7FFFFFFF
+                    c = {"op": OPS[(x >> 16) % 16]}
+                    if (x >> 4) % 7 == 0:
+                        c["faults"] = [faults[(x >> 9) % len(faults)]]
+                    if (x >> 12) % 11 == 0:
+                        c["advance"] = (1, 4, 6, 20)[(x >> 20) % 4]
+                    calls.append(c)
+                yield {"kind": "pooled", "cfg": {"max_pool_size": mx, "pool_idle_timeout": idle, "ignore_exc": ie}, "calls": calls}
+
+
 def serde_failure_cases(tier, seed):
     """mixed outcomes inside one read: some items of the reply deserialise, a later one does not (any exception type); the
     rest of the reply is still on the wire when the call ends - that connection is failed, not healthy"""
@@ -366,6 +388,7 @@ def check_reentrant(case, interruption=None):
 
 PARTS = [
     Part("re-entrant-calls", "enum", check_reentrant, cases=reentrant_cases, exhaustive=True),
+    Part("long-lives", "enum", check, cases=soak_cases, shards={"quick": 6, "thorough": 12}),
     Part("fault-and-gap-sweep", "enum", check, cases=sweep_cases, exhaustive=True),
     Part("deserialiser-failures", "enum", check, cases=serde_failure_cases, exhaustive=True),
     Part("fractional-idle-timeouts", "enum", check, cases=fractional_idle_cases, exhaustive=True),
